@@ -18,7 +18,7 @@ CONTRACTS = {
     'self.mock_function': 'NONE', 'self._reset_builtins': 'NONE', 'self._module_overrides.pop': 'NONE',
     'self._mock_builtins': 'NONE', 'sys.modules.copy': 'NONE', 'self._module_overrides.items': 'NONE',
     "self._module_overrides['__builtins__'].get": 'NONE', 'io.StringIO': 'NONE', 'PrintingStringIO': 'NONE',
-    'patch.dict': 'NONE', 'patch': 'NONE', 'self._current_stdout.append': 'NONE', 'self._current_stdout.pop': 'NONE',
+    'patch.dict': 'NONE', 'patch': 'NONE', 'patch.object': 'NONE', 'self._current_stdout.append': 'NONE', 'self._current_stdout.pop': 'NONE',
     'self._start_patches': 'NONE', 'self._stop_patches': 'NONE', 'current_stdout.getvalue': 'NONE',
     'self.append_output': 'NONE', 'sys.exc_info': 'NONE', 'self.clear_exception': 'NONE',
     # recording the failure: builds the traceback and the runtime feedback (may format student objects)
